@@ -92,7 +92,7 @@ class C09(Prop):
 
     def model_request(self, case, impl):
         return {"kind": "factory", "specs": case["specs"], "handler": case["handler"], "snap": sorted(case["pre_res"]),
-                "trace": [e["l"] for e in impl["trace"] if e["l"][0] not in ("startedCalled", "waitAsked")]}
+                "trace": [e["l"] for e in impl["trace"] if e["l"][0] not in ("startedCalled", "waitAsked", "probeFailed")]}
 
     def compare(self, case, impl, model):
         if impl["hang"]:
@@ -119,6 +119,9 @@ class C09(Prop):
         out = next((l[1] for l in labels if l[0] == "outcome"), None)
         if impl["hang"]:
             fails.append("teardown never finished")
+        for l in labels:
+            if l[0] == "probeFailed":
+                fails.append(f"task {l[1]}: {l[2]}")
         if sorted(crashed) != (out or []):
             fails.append(f"exceptions escaping tasks {sorted(crashed)} (handler {handler}); the caller saw {out}")
         end_t: dict[int, float] = {}
